@@ -166,7 +166,18 @@ func (g *pgen) node(depth int) []interface{} {
 		// make the loop variables usable in the body
 		save := *t
 		if isStr {
-			t.strs[val] = "?"
+			// string methods are generated with in-range arguments (C20's domain): the variable stands for every element, so
+			// the shortest one bounds the arguments
+			shortest := "?"
+			if as, ok := t.data["as"].([]interface{}); ok && len(as) > 0 {
+				shortest = as[0].(string)
+				for _, x := range as {
+					if len(x.(string)) < len(shortest) {
+						shortest = x.(string)
+					}
+				}
+			}
+			t.strs[val] = shortest
 		} else {
 			t.ints = append(t.ints, val)
 		}
